@@ -135,6 +135,12 @@ def lm_session(w, sc, mon):
         mon.count("refused_attempt_before_honest")
         if rr.ok:
             viol("accepts_wrong_proof", "library server accepted a proof with one bit changed")
+        elif rr.status == "err" and "server_proof" in rr.f:
+            # the proofs inside the refusal are values that come out of the public API, too: the presented one and the M1 of the definition
+            mon.count("proofs_inside_refusals_compared")
+            if {rr.b("client_proof"), rr.b("server_proof")} != {bad, M1}:
+                viol("refusal_carries_other_proof:server", "the refusal carries client_proof=%s server_proof=%s; presented %s, M1 by definition %s" % (
+                    rr.f.get("client_proof"), rr.f.get("server_proof"), bad.hex(), M1.hex()))
     r = w.call("proof_server", h=3, into=5, A=A_bytes, M1=M1)
     z, hz = cls_of(S, M.N)
     if r.status == "err" and r.f.get("stage") == "pk":
@@ -271,6 +277,12 @@ def ml_session(w, sc, mon):
         mon.count("refused_attempt_before_honest")
         if ff.ok:
             viol("accepts_wrong_server_proof", "library client accepted a server proof with one bit changed")
+        elif ff.status == "err" and "server_proof" in ff.f:
+            mon.count("proofs_inside_refusals_compared")
+            badm2 = bytes(x ^ 0x80 for x in M2[:1]) + M2[1:]
+            if {ff.b("client_proof"), ff.b("server_proof")} != {badm2, M2}:
+                viol("refusal_carries_other_proof:client", "the refusal carries client_proof=%s server_proof=%s; presented %s, M2 by definition %s" % (
+                    ff.f.get("client_proof"), ff.f.get("server_proof"), badm2.hex(), M2.hex()))
     f = w.call("cli_verify", h=4, into=6, M2=M2)
     if not f.ok:
         viol("client_rejects_model_server:%s:%s" % (gcls, z), "library client refused the model server's proof: %s" % f.f)
